@@ -274,6 +274,32 @@ func init() {
 		pat, _ := a[0].(Ptr).C.Obj.(string)
 		return m.regexMatch(pat, m.sliceTerms(a[1].(SliceVal)))
 	}
+	// ---- blst (cgo): nondeterministic stubs, see DESIGN §3 ----
+	const blstP = "github.com/supranational/blst/bindings/go."
+	recvOrNil := func(m *Machine, fn *ssa.Function, a []Value) Value {
+		if m.cfg.Opts["blstnil"] == "1" {
+			v := m.freshVar("blst.uncompress.ok", 1)
+			if !m.branch(m.tt.Eq(v, m.tt.Const(1, 1))) {
+				return Ptr{}
+			}
+		}
+		return a[0]
+	}
+	I["(*"+blstP+"P1Affine).Uncompress"] = recvOrNil
+	I["(*"+blstP+"P2Affine).Uncompress"] = recvOrNil
+	I["(*"+blstP+"P1Affine).Deserialize"] = recvOrNil
+	I["(*"+blstP+"P2Affine).Deserialize"] = recvOrNil
+	nondetBool := func(name string) intrinsicFn {
+		return func(m *Machine, fn *ssa.Function, a []Value) Value {
+			v := m.freshVar(name, 1)
+			return m.tt.Eq(v, m.tt.Const(1, 1))
+		}
+	}
+	I["(*"+blstP+"P2Affine).FastAggregateVerify"] = nondetBool("blst.FastAggregateVerify")
+	I["(*"+blstP+"P2Affine).Verify"] = nondetBool("blst.Verify")
+	I["(*"+blstP+"P2Affine).AggregateVerify"] = nondetBool("blst.AggregateVerify")
+	I["(*"+blstP+"P1Affine).KeyValidate"] = nondetBool("blst.KeyValidate")
+	I["(*"+blstP+"P2Affine).SigValidate"] = nondetBool("blst.SigValidate")
 	// ---- sort ----
 	I["sort.Slice"] = func(m *Machine, fn *ssa.Function, a []Value) Value {
 		m.sortSlice(a[0].(IfaceVal).V.(SliceVal), a[1].(*Closure))
